@@ -453,6 +453,8 @@ func checkC10(c CaseC10, x *hx.Ctx) (fail *hx.Failure) {
 			if pendingBreakaway {
 				interesting = true
 			}
+			// "twice in a row" means two consecutive ProcessDescriptor calls: an explicit close in between changes the state
+			last = nil
 			closed, err := st.Close(d.obj)
 			if err != nil {
 				if len(closed) != 0 {
